@@ -156,6 +156,11 @@ func cmdCheck(args []string) {
 				trusted = append(trusted, fmt.Sprintf("assumed (not proved) at the head of loop %d of %s: %s", ord, fc.Key(), a.Src))
 			}
 		}
+		for _, e := range fc.Ensures {
+			if e.Assumed {
+				trusted = append(trusted, "assumed postcondition of "+fc.Key()+" (used at its call sites, the body is not checked against it): "+e.Src)
+			}
+		}
 		for _, cn := range fc.AssumeCallee {
 			trusted = append(trusted, "inside "+fc.Key()+" the preconditions of "+cn+" are assumed at its call sites, not proved")
 		}
